@@ -31,9 +31,17 @@ class SymTable:
     def __getitem__(self, key):
         if Ctx.current is None:
             return self.real[key]
+        from ..core import tokparse
+        e = tokparse.single_enum(key)
+        if e is not None:
+            key = e
         if isinstance(key, SEnum):
             if key.domain != self.labels:
-                raise KeyError(key)
+                idx = key.reindex(self.labels)
+                c = Ctx.current
+                if c.branch(idx < 0):
+                    raise KeyError(key)
+                return SReal(tbl_value(self.kind, idx))
             return SReal(tbl_value(self.kind, key.z))
         if key not in self.real:
             raise KeyError(key)
